@@ -64,9 +64,21 @@ func e2Simplify(ns []*e2Node) []*e2Node {
 		switch n.kind {
 		case "loop":
 			n.a = e2Simplify(n.a)
+			if e2Str(n.a) == "" {
+				continue // a loop that neither reads nor writes (a size computation)
+			}
 			out = append(out, n)
 		case "alt":
 			n.a, n.b = e2Simplify(n.a), e2Simplify(n.b)
+			// `if len(xs) == 0 { return <empty> }` in front of loops over xs: the loops emit nothing for an empty xs, so the
+			// early return is the zero-iteration case of the other side
+			if m := e2EmptyGuard(n); m != nil {
+				out = append(out, m...)
+				if e2Ends(m) {
+					return out
+				}
+				continue
+			}
 			fa, fb := e2Fails(n.a), e2Fails(n.b)
 			switch {
 			case fa && fb:
@@ -364,7 +376,7 @@ func (x *e2Ctx) walk(b, stop *ssa.BasicBlock) []*e2Node {
 				return out
 			}
 			body := x.walkLoopBody(inSucc, b, loop)
-			out = append(out, &e2Node{kind: "loop", a: body, pos: x.c.P.ipos(b.Instrs[len(b.Instrs)-1])})
+			out = append(out, &e2Node{kind: "loop", a: body, pos: x.c.P.ipos(b.Instrs[len(b.Instrs)-1]), note: x.loopBound(b)})
 			if outSucc == nil {
 				// exits are inside the body (for { … break/return })
 				return out
@@ -1191,11 +1203,16 @@ func (x *e2Ctx) srcOfX(v ssa.Value, pre []string, depth int) (string, string) {
 				}
 			}
 		case *ssa.Phi:
-			if fl := x.flagsOf(t); fl != "" {
+			// one of two constants chosen by one branch (`var flags uint8; if c { flags |= K }`): the decision expression
+			// {c}?[K : 0] below, the same as writing the constant in each branch — it keeps which constant goes with which outcome
+			_, ce0 := constFold(t.Edges[0])
+			_, ce1 := constFold(t.Edges[1%len(t.Edges)])
+			twoConst := len(t.Edges) == 2 && ce0 && ce1 && !inCycle(t.Block())
+			if fl := x.flagsOf(t); fl != "" && !twoConst {
 				return fl, "flags"
 			}
 			// conditional constant (flag byte): if cond {mask} else {0}
-			if len(t.Edges) == 2 {
+			if len(t.Edges) == 2 && !twoConst {
 				k0, ok0 := intConst(t.Edges[0])
 				k1, ok1 := intConst(t.Edges[1])
 				if ok0 && ok1 {
@@ -1224,6 +1241,9 @@ func (x *e2Ctx) srcOfX(v ssa.Value, pre []string, depth int) (string, string) {
 							var parts [2]string
 							for i, e := range t.Edges {
 								f, xf := x.srcOfX(e, xs, depth+1)
+								if k, isK := constFold(e); isK {
+									f, xf = fmt.Sprintf("const:%d", k), ""
+								}
 								sd := s0
 								if i == 1 {
 									sd = s1
@@ -1502,6 +1522,13 @@ func (x *e2Ctx) dstOf(v ssa.Value) (string, string) {
 				follow(item{t, append(append([]string{}, it.xs...), "conv:"+types.TypeString(t.Type(), shortQual))}, d+1)
 			case *ssa.ChangeType:
 				follow(item{t, it.xs}, d+1)
+			case *ssa.SliceToArrayPointer:
+				// [N]byte(p): the array value loaded through the pointer is a copy of the slice's first N bytes
+				for _, r2 := range *t.Referrers() {
+					if ld, ok := r2.(*ssa.UnOp); ok && ld.Op == token.MUL && ld.X == ssa.Value(t) {
+						follow(item{ld, append(append([]string{}, it.xs...), "copy")}, d+1)
+					}
+				}
 			case *ssa.MakeInterface:
 				follow(item{t, it.xs}, d+1)
 			case *ssa.BinOp:
@@ -1944,7 +1971,13 @@ func (x *e2Ctx) arrayUse(al *ssa.Alloc) (string, string) {
 
 // e2Extract returns the simplified schema of a codec function.
 func e2Extract(c *Ctx, f *ssa.Function, enc bool) ([]*e2Node, []string) {
-	x := &e2Ctx{c: c, fn: f, lex: map[ssa.Value]bool{}, enc: enc, subst: map[string]string{}, visited: map[*ssa.BasicBlock]int{}}
+	return e2ExtractWith(c, f, enc, map[string]string{}, 0)
+}
+
+// e2ExtractWith: extraction of f with its parameters described in a caller's terms (subst) — used for an encoder
+// whose whole body lives in an unexported helper
+func e2ExtractWith(c *Ctx, f *ssa.Function, enc bool, subst map[string]string, depth int) ([]*e2Node, []string) {
+	x := &e2Ctx{c: c, fn: f, lex: map[ssa.Value]bool{}, enc: enc, subst: subst, visited: map[*ssa.BasicBlock]int{}, depth: depth}
 	x.ipdom = postDominators(f)
 	// the tracked Lexer: a parameter, or the result of a constructor call
 	for _, p := range f.Params {
@@ -1986,6 +2019,22 @@ func e2Extract(c *Ctx, f *ssa.Function, enc bool) ([]*e2Node, []string) {
 // that convert / copy / delegate their whole parameter.
 func (x *e2Ctx) noLexer(f *ssa.Function, enc bool) []*e2Node {
 	if enc {
+		// the whole encoding may be produced by an unexported helper that builds the Lexer itself
+		// (`return ipv6AddrsToBytes(op.NameServers)`): the helper's schema with its parameters in this function's terms
+		if rets := returnsOf(f); len(rets) == 1 && len(rets[0].Results) == 1 && x.depth < 3 {
+			if cl, ok := rets[0].Results[0].(*ssa.Call); ok {
+				if g := cl.Call.StaticCallee(); g != nil && inModule(g) && g.Blocks != nil && !token.IsExported(g.Name()) && g.Signature.Recv() == nil && g != f && len(cl.Call.Args) == len(g.Params) && buildsEncoding(g) {
+					sub := map[string]string{}
+					for j, p := range g.Params {
+						s, _ := x.srcOf(cl.Call.Args[j])
+						sub[x.c.Sx().Of(p).String()] = s
+					}
+					ns, undec := e2ExtractWith(x.c, g, true, sub, x.depth+1)
+					x.undec = append(x.undec, undec...)
+					return ns
+				}
+			}
+		}
 		var alts [][]*e2Node
 		seen := map[string]bool{}
 		for _, r := range returnsOf(f) {
@@ -2438,7 +2487,7 @@ func appendAccumulator(f *ssa.Function) map[ssa.Value]bool {
 				visit(t.Call.Args[0], d+1)
 			case t.Call.StaticCallee() != nil && strings.HasPrefix(funcKey(t.Call.StaticCallee()), "(encoding/binary.bigEndian).AppendUint") && len(t.Call.Args) == 3:
 				acc[v] = true
-				inLoop = inLoop || inCycle(t.Block())
+				inLoop = true // a fixed-width write: the chain is a write cursor also without a loop
 				visit(t.Call.Args[1], d+1)
 			default:
 				ok = false
@@ -2542,4 +2591,88 @@ func (x *e2Ctx) manualPrefix(f *ssa.Function, prm *ssa.Parameter) ([]*e2Node, bo
 		}
 	}
 	return append(out, &e2Node{kind: "ret", note: note}), true
+}
+
+// buildsEncoding: g creates a Lexer of its own or accumulates its result by appends
+func buildsEncoding(g *ssa.Function) bool {
+	found := false
+	allInstrs(g, func(in ssa.Instruction) {
+		if cl, ok := in.(*ssa.Call); ok {
+			if sf := cl.Call.StaticCallee(); sf != nil && inUio(sf) && strings.HasPrefix(sf.Name(), "New") && strings.HasSuffix(sf.Name(), "Buffer") {
+				found = true
+			}
+		}
+	})
+	return found || appendAccumulator(g) != nil
+}
+
+// constFold: the integer value of a constant or of |, +, & over constants (go/ssa does not fold `0 | mask`)
+func constFold(v ssa.Value) (int64, bool) {
+	if k, ok := intConst(v); ok {
+		return k, true
+	}
+	if bo, ok := v.(*ssa.BinOp); ok {
+		a, okA := constFold(bo.X)
+		b, okB := constFold(bo.Y)
+		if okA && okB {
+			switch bo.Op {
+			case token.OR:
+				return a | b, true
+			case token.ADD:
+				return a + b, true
+			case token.AND:
+				return a & b, true
+			}
+		}
+	}
+	if cv, ok := v.(*ssa.Convert); ok {
+		return constFold(cv.X)
+	}
+	return 0, false
+}
+
+// loopBound: "len(<path>)" when the loop at header b runs a counter up to the length of a collection (range loops)
+func (x *e2Ctx) loopBound(b *ssa.BasicBlock) string {
+	iff := ifOf(b)
+	if iff == nil {
+		return ""
+	}
+	bo, ok := iff.Cond.(*ssa.BinOp)
+	if !ok || bo.Op != token.LSS {
+		return ""
+	}
+	if lo := lenOperand(bo.Y); lo != nil {
+		return "len(" + x.apply(x.pathOf(lo, 0)) + ")"
+	}
+	return ""
+}
+
+// e2EmptyGuard: alt{cond: len(P)==0, one side: nothing but the return, other side: loops bounded by len(P) then the same
+// return} → the other side
+func e2EmptyGuard(n *e2Node) []*e2Node {
+	c := strings.TrimSuffix(strings.TrimPrefix(n.note, "("), ")")
+	var bound string
+	empty, full := n.a, n.b
+	switch {
+	case strings.HasSuffix(c, "==const:0"):
+		bound = strings.TrimSuffix(c, "==const:0")
+	case strings.HasSuffix(c, "!=const:0"):
+		bound = strings.TrimSuffix(c, "!=const:0")
+		empty, full = n.b, n.a
+	default:
+		return nil
+	}
+	if !strings.HasPrefix(bound, "len(") || len(empty) != 1 || empty[0].kind != "ret" || len(full) < 2 {
+		return nil
+	}
+	last := full[len(full)-1]
+	if last.kind != "ret" || last.note != empty[0].note {
+		return nil
+	}
+	for _, m := range full[:len(full)-1] {
+		if m.kind != "loop" || m.note != bound {
+			return nil
+		}
+	}
+	return full
 }
